@@ -25,6 +25,7 @@ Term grammar (nested tuples):
   ("loopvar", loop_id, name) ("mu", loop_id, name, init, update) ("elem", collection)
   ("closure", id) ("hof", method, recv, body_term) ("mut", old, effect)
 """
+import os
 import sys
 
 from hir import pat_bindings, walk, strip_blocks, macro_of, in_macro
@@ -47,7 +48,7 @@ HOF_METHODS = {"map", "filter", "for_each", "all", "any", "position", "find", "f
                "and_then", "unwrap_or_else", "ok_or_else", "or_else", "is_some_and", "is_none_or", "retain",
                "take_while", "skip_while", "find_map", "inspect", "then", "map_or", "map_or_else", "fold",
                "rposition", "max_by_key", "min_by_key", "sort_by_key", "sort_by", "partition", "is_ok_and",
-               "try_for_each", "try_fold", "map_while", "next_if", "min_by", "max_by", "is_some_and"}
+               "try_for_each", "try_fold", "map_while", "next_if", "min_by", "max_by", "is_some_and", "splitn"}
 OPTION_HOFS = {"map_err": "Err", "and_then": None, "unwrap_or_else": "Err", "ok_or_else": None, "or_else": "Err"}
 
 
@@ -100,7 +101,18 @@ def lit_value(v):
 def mk_ite(c, a, b):
     if a == b:
         return a
+    if a[0] == "struct" and b[0] == "struct" and a[1] == b[1] and len(a[2]) == len(b[2]) and all(x[0] == y[0] for x, y in zip(a[2], b[2])):
+        # the same struct either way: the choice is per field
+        return ("struct", a[1], tuple((x[0], mk_ite(c, x[1], y[1])) for x, y in zip(a[2], b[2])))
     return ("ite", c, a, b)
+
+
+def mk_mut(old, eff, path):
+    """The value `old` after the in-place effect `eff` on the place `path` inside it.  A struct literal is updated field-wise."""
+    if old[0] == "struct" and path and eff[0] == "call" and any(f == path[0] for f, _ in old[2]):
+        rest = tuple(path[1:])
+        return ("struct", old[1], tuple((f, mk_mut(t, eff, rest) if f == path[0] else t) for f, t in old[2]))
+    return ("mut", old, eff, tuple(path))
 
 
 def mk_join(ts):
@@ -132,6 +144,9 @@ def mk_field(base, name):
         return mk_ite(base[1], mk_field(base[2], name), mk_field(base[3], name))
     if base[0] == "mut" and len(base) == 4 and base[3] and base[3][0] != name:
         return mk_field(base[1], name)       # the in-place update concerned a different field
+    if base[0] == "mut" and len(base) == 4 and base[3] and base[3][0] == name:
+        # the in-place update concerned this very field: the field's own value, updated
+        return ("mut", mk_field(base[1], name), base[2], tuple(base[3][1:]))
     return ("field", base, name)
 
 
@@ -209,23 +224,26 @@ def calls_in(t, *suffixes):
 
 
 def replace(t, old, new, memo=None):
-    """Replace every occurrence of subterm `old` by `new` (re-simplifying projections)."""
+    """Replace every occurrence of subterm `old` by `new` (re-simplifying projections).  Memo by identity: terms are DAGs."""
     if memo is None:
         memo = {}
     if not isinstance(t, tuple) or not t:
         return t
-    if t == old:
+    if t is old or (len(t) == len(old) and t[0] == old[0] and t == old):
         return new
-    if t in memo:
-        return memo[t]
+    hit = memo.get(id(t))
+    if hit is not None and hit[0] is t:
+        return hit[1]
     r = tuple(replace(x, old, new, memo) if isinstance(x, tuple) else x for x in t)
-    if r and r[0] == "field" and len(r) == 3:
+    if all(a is b for a, b in zip(r, t)):
+        r = t
+    elif r and r[0] == "field" and len(r) == 3:
         r = mk_field(r[1], r[2])
     elif r and r[0] == "proj" and len(r) == 4:
         r = mk_proj(r[1], r[2], r[3])
     elif r and r[0] == "tproj" and len(r) == 3:
         r = mk_tproj(r[1], r[2])
-    memo[t] = r
+    memo[id(t)] = (t, r)
     return r
 
 
@@ -251,25 +269,28 @@ def place_path(n):
 
 
 def subst(t, mapping, memo=None):
-    """Substitute ("param", n) by mapping[n]."""
+    """Substitute ("param", n) by mapping[n].  Memo by identity: terms are DAGs."""
     if memo is None:
         memo = {}
     if not isinstance(t, tuple) or not t:
         return t
-    if t in memo:
-        return memo[t]
-    if t and t[0] == "param" and len(t) == 2 and t[1] in mapping:
+    hit = memo.get(id(t))
+    if hit is not None and hit[0] is t:
+        return hit[1]
+    if t[0] == "param" and len(t) == 2 and t[1] in mapping:
         r = mapping[t[1]]
     else:
         r = tuple(subst(x, mapping, memo) if isinstance(x, tuple) else x for x in t)
+        if all(a is b for a, b in zip(r, t)):
+            r = t
         # re-simplify projections / fields that became reducible
-        if r and r[0] == "field" and len(r) == 3:
+        elif r and r[0] == "field" and len(r) == 3:
             r = mk_field(r[1], r[2])
         elif r and r[0] == "proj" and len(r) == 4:
             r = mk_proj(r[1], r[2], r[3])
         elif r and r[0] == "tproj" and len(r) == 3:
             r = mk_tproj(r[1], r[2])
-    memo[t] = r
+    memo[id(t)] = (t, r)
     return r
 
 
@@ -451,34 +472,131 @@ def merge_states(a, b, cond):
     return State(env, a.may | b.may, a.must & b.must)
 
 
+def _strip_not(x, pol):
+    while isinstance(x, tuple) and x and x[0] == "not":
+        x, pol = x[1], not pol
+    return x, pol
+
+
+def to_clauses(t, pol, cap=12):
+    """Clauses (lists of (atom, polarity)) of a Boolean term with the given polarity; compound parts beyond the cap stay atoms."""
+    t, pol = _strip_not(t, pol)
+    if t[0] == "lit" and isinstance(t[1], bool):
+        return [] if t[1] == pol else [[]]
+    if t[0] == "bin" and t[1] in ("&&", "||"):
+        if (t[1] == "&&") == pol:
+            return to_clauses(t[2], pol, cap) + to_clauses(t[3], pol, cap)
+        ca, cb = to_clauses(t[2], pol, cap), to_clauses(t[3], pol, cap)
+        if len(ca) * len(cb) <= cap:
+            return [x + y for x in ca for y in cb]
+    return [[(t, pol)]]
+
+
+def _lit_value(x, pol, lits):
+    for f, fp in lits:
+        if x is f or (x[0] == f[0] and len(x) == len(f) and x == f):
+            return fp == pol
+    return None
+
+
+def propagate_clauses(lits, clauses):
+    """Unit propagation: (literals, remaining clauses), or None when the facts are contradictory."""
+    lits = list(lits)
+    clauses = [list(c) for c in clauses]
+    changed = True
+    while changed:
+        changed = False
+        rest = []
+        for c in clauses:
+            keep, sat = [], False
+            for (x, pol) in c:
+                v = _lit_value(x, pol, lits)
+                if v is True:
+                    sat = True
+                    break
+                if v is None:
+                    keep.append((x, pol))
+            if sat:
+                changed = changed or True
+                continue
+            if not keep:
+                return None
+            if len(keep) == 1:
+                x, pol = keep[0]
+                # a unit may itself be compound: decompose
+                sub = to_clauses(x, pol)
+                if sub == [[(x, pol)]]:
+                    lits.append((x, pol))
+                else:
+                    lits.append((x, pol))
+                    rest.extend(sub)
+                changed = True
+                continue
+            if len(keep) != len(c):
+                changed = True
+            rest.append(keep)
+        clauses = rest
+    return lits, clauses
+
+
 def assume(t, pc):
-    """Simplify a term under the facts of a path condition: occurrences of a condition term are replaced by its known value."""
-    facts = []
+    """Simplify a term under the facts of a path condition: occurrences of a condition term are replaced by its known value; with
+    disjunctive facts, `ite` chains are split by cases (a branch that contradicts the facts is dropped, equal branches merge)."""
+    lits, clauses = [], []
     for c in pc:
         if c[0] == "if":
-            stack = [(c[1], c[2])]
-            while stack:
-                x, pol = stack.pop()
-                while x[0] == "not":
-                    x, pol = x[1], not pol
-                facts.append((x, pol))
-                if x[0] == "bin" and ((x[1] == "&&" and pol) or (x[1] == "||" and not pol)):
-                    stack.append((x[2], pol))
-                    stack.append((x[3], pol))
-    if not facts:
+            x, pol = _strip_not(c[1], c[2])
+            cl = to_clauses(x, pol)
+            if len(cl) != 1 or len(cl[0]) != 1:
+                lits.append((x, pol))           # the compound itself, for whole-term replacement
+            clauses += cl
+    pr = propagate_clauses(lits, clauses)
+    if pr is None:
         return t
+    lits, clauses = pr
+    if not lits and not clauses:
+        return t
+    return _assume(t, lits, clauses, 0)
+
+
+def _assume(t, facts, clauses, depth):
     memo = {}
+
+    def branch(x, c, pol):
+        cx, cp = _strip_not(c, pol)
+        pr = propagate_clauses(facts + [(cx, cp)], clauses + to_clauses(cx, cp))
+        if pr is None:
+            return None                     # this branch contradicts the facts
+        return _assume(x, pr[0], pr[1], depth + 1)
 
     def go(x):
         if not isinstance(x, tuple) or not x:
             return x
-        if x in memo:
-            return memo[x]
+        hit = memo.get(id(x))
+        if hit is not None and hit[0] is x:
+            return hit[1]
         r = None
         for f, pol in facts:
-            if x == f:
+            if x is f or (x[0] == f[0] and len(x) == len(f) and x == f):
                 r = ("lit", pol)
                 break
+        if r is None and x[0] == "ite" and clauses and depth < 5:
+            c = go(x[1])
+            cc, cpol = _strip_not(c, True)
+            if cc[0] == "lit" and isinstance(cc[1], bool):
+                r = go(x[2]) if cc[1] == cpol else go(x[3])
+            else:
+                a, b = branch(x[2], c, True), branch(x[3], c, False)
+                if a is None and b is None:
+                    r = x
+                elif a is None:
+                    r = b
+                elif b is None:
+                    r = a
+                elif a is b or a == b:
+                    r = a
+                else:
+                    r = ("ite", c, a, b)
         if r is None:
             r = tuple(go(y) if isinstance(y, tuple) else y for y in x)
             if r[0] == "ite" and r[1] == ("lit", True):
@@ -487,7 +605,9 @@ def assume(t, pc):
                 r = r[3]
             elif r[0] == "ite" and r[1][0] == "not" and r[1][1] in (("lit", True), ("lit", False)):
                 r = r[3] if r[1][1] == ("lit", True) else r[2]
-        memo[x] = r
+            elif all(a is b for a, b in zip(r, x)):
+                r = x
+        memo[id(x)] = (x, r)
         return r
 
     return go(t)
@@ -557,6 +677,9 @@ def ret_term_full(returns):
     return ret_term(rs)
 
 
+_API_CACHE = {}
+
+
 class Engine:
     """Memoising interprocedural driver. `hooks`: object with optional methods
        on_site(ev, site)  -- may modify ev.st.may / ev.st.must
@@ -571,6 +694,12 @@ class Engine:
         self.max_depth = max_depth
         self.pe_memo = {}
         self.pe_stack = []
+        self._api = None
+
+    def api_forms(self):
+        if self._api is None:
+            self._api = _API_CACHE.setdefault(id(self.prog), ApiForms(self.prog))
+        return self._api
 
     def specialise(self, fn, bindings):
         """Online partial evaluation: summarise `fn` with some parameters bound to concrete constructor terms. Branches whose
@@ -604,6 +733,167 @@ class Engine:
         return s
 
 
+def unify(pat, t, sigma, depth=0):
+    """Match term `t` against `pat`, whose ("param", name) leaves are variables (bound consistently in sigma)."""
+    if isinstance(pat, tuple) and pat and pat[0] == "param" and len(pat) == 2:
+        if pat[1] in sigma:
+            return sigma[pat[1]] is t or sigma[pat[1]] == t
+        sigma[pat[1]] = t
+        return True
+    if pat is t:
+        return True
+    if not isinstance(pat, tuple) or not isinstance(t, tuple):
+        return pat == t
+    if len(pat) != len(t) or depth > 400:
+        return False
+    for a, b in zip(pat, t):
+        if isinstance(a, tuple):
+            if not isinstance(b, tuple) or not unify(a, b, sigma, depth + 1):
+                return False
+        elif a != b:
+            return False
+    return True
+
+
+class ApiHooks:
+    """Inside one module: the public functions and the recursive workers are the vocabulary; every other function is a helper."""
+
+    api_forms = False
+
+    def __init__(self, eng, module):
+        self.eng = eng
+        self.module = module
+
+    def opaque(self, fn):
+        if not fn.path.startswith(self.module + "::"):
+            return True
+        return fn.vis == "Public" or self.eng.is_recursive(fn)
+
+
+def _term_size(t, cap=40):
+    n = 0
+    stack = [t]
+    while stack and n < cap:
+        x = stack.pop()
+        if isinstance(x, tuple):
+            n += 1
+            stack.extend(x)
+    return n
+
+
+class ApiForms:
+    """A crate-internal helper G of a module whose value is (an expression over) what a public function F of that module computes is
+    *presented through F*: the body of G (helpers inlined, public functions and recursive workers kept as symbols) is searched for
+    instances of the body of F, and each instance is folded into the call F(..).  So `supports(stg, &t)` with
+    `pub fn check(stg, t) { supports(stg, &t) }` reads `check(stg, t)`, and `count(&t)` with `pub fn collect(t) { ..; seen }`,
+    `fn count(t) { ..; seen.len() }` reads `len(collect(t))`: rules keep referring to the public vocabulary of the property texts."""
+
+    def __init__(self, prog):
+        self.prog = prog
+        self.memo = {}
+        self.rec_memo = {}
+        self.raw = Engine(prog, inline=False)
+        self.engines = {}
+
+    def callees(self, fn):
+        s = self.raw.summary(fn)
+        out = []
+        for x in (s.sites if s is not None else []):
+            if x.kind in ("call", "mcall") and isinstance(x.callee, str):
+                g = self.prog.resolve_local(fn.crate, x.callee)
+                if g is not None and not g.derived:
+                    out.append(g)
+        return out
+
+    def is_recursive(self, fn):
+        if fn.qual in self.rec_memo:
+            return self.rec_memo[fn.qual]
+        seen, stack, rec = set(), list(self.callees(fn)), False
+        while stack and len(seen) < 400:
+            g = stack.pop()
+            if g is fn:
+                rec = True
+                break
+            if g.qual in seen:
+                continue
+            seen.add(g.qual)
+            stack.extend(self.callees(g))
+        self.rec_memo[fn.qual] = rec
+        return rec
+
+    def engine(self, module):
+        if module not in self.engines:
+            self.engines[module] = Engine(self.prog, inline=True, hooks=ApiHooks(self, module))
+        return self.engines[module]
+
+    def pure(self, fn, summ):
+        return summ is not None and not getattr(summ, "mut_out", None) and not any(str(t).startswith("&mut") for t in fn.param_tys)
+
+    def form(self, g, exclude):
+        """(term over g's parameters with folded public calls, [(public fn, argument terms)]) or None."""
+        key = (g.qual, exclude.qual if exclude is not None else None)
+        if key in self.memo:
+            return self.memo[key]
+        self.memo[key] = None
+        if g.vis == "Public" or g.derived or "::" not in g.path or self.is_recursive(g):
+            return None
+        module = g.path.rsplit("::", 1)[0]
+        eng = self.engine(module)
+        sg = eng.summary(g)
+        if not self.pure(g, sg):
+            return None
+        body = getattr(sg, "ret_full", None) or sg.ret
+        if body is None or body == NEVER:
+            return None
+        pats = []
+        for f in self.prog.lib_fns():
+            if f is g or f is exclude or f.vis != "Public" or f.crate != g.crate or not f.path.startswith(module + "::") or f.path.count("::") != g.path.count("::"):
+                continue
+            if str(f.ret) in ("()", "None", ""):
+                continue
+            sf = eng.summary(f)
+            if not self.pure(f, sf):
+                continue
+            pat = getattr(sf, "ret_full", None) or sf.ret
+            names = f.param_names()
+            if pat is None or pat == NEVER or _term_size(pat) < 4 or not names or not all(mentions_param(pat, nm) for nm in names):
+                continue
+            pats.append((f, pat, names))
+        if not pats:
+            return None
+        folded = []
+        idm = {}
+
+        def fold(x):
+            if not isinstance(x, tuple) or not x:
+                return x
+            hit = idm.get(id(x))
+            if hit is not None and hit[0] is x:
+                return hit[1]
+            r = None
+            for f, pat, names in pats:
+                if x[0] != pat[0] or len(x) != len(pat):
+                    continue
+                sigma = {}
+                if unify(pat, x, sigma) and all(nm in sigma for nm in names):
+                    args = tuple(fold(sigma[nm]) for nm in names)
+                    r = ("call", f.path, args)
+                    folded.append((f, args))
+                    break
+            if r is None:
+                r = tuple(fold(y) if isinstance(y, tuple) else y for y in x)
+                if all(a is b for a, b in zip(r, x)):
+                    r = x
+            idm[id(x)] = (x, r)
+            return r
+
+        out = fold(body)
+        if not folded:
+            return None
+        self.memo[key] = (out, folded)
+        return self.memo[key]
+
+
 class Evaluator:
     def __init__(self, engine, fn, bindings=None):
         self.eng = engine
@@ -620,6 +910,8 @@ class Evaluator:
         self._const_depth = 0
         self.closure_rets = []
         self._cont_conds = {}
+        self._break_conds = {}
+        self._beta_memo = {}
         self.pc = []              # path condition stack
         self._pc_marks = []
         self.loop_stack = []      # (loop_id, break_states, continue_states, label)
@@ -641,6 +933,9 @@ class Evaluator:
         nz = norm.Normalizer()
         self.summ.ret = nz(ret_term([r for r in self.summ.returns if r[5] != "try"]))
         self.summ.ret_full = nz(ret_term_full(self.summ.returns)) if any(r[5] == "try" for r in self.summ.returns) else self.summ.ret
+        srch = self._recognise_search()
+        if srch is not None:
+            self.summ.ret = self.summ.ret_full = srch
         # final value of every `&mut` parameter (as a function of the parameters), for callers that inline this function
         self.summ.mut_out = {}
         for name, exits in self.mut_exits.items():
@@ -648,6 +943,66 @@ class Evaluator:
             if ex and any(e[0] != ("param", name) for e in ex):
                 self.summ.mut_out[name] = nz(ret_term(ex))
         return self.summ
+
+    def _recognise_search(self):
+        """`let mut i = 0; while i < s.len() { if P(s[i]) { return Some(i) } i += 1 } None` (or `for i in 0..s.len()`) is the linear
+        search `s.iter().position(|x| P(x))`: the value of such a function is given in that form, so callers see one idiom."""
+        rs = self.summ.returns
+        if len(rs) != 2 or any(r[5] == "try" for r in rs):
+            return None
+        hit, miss = rs
+        if miss[5] != "tail" or miss[0] != ("ctor", "std::prelude::v1::None", ()) or any(c[0] in ("if", "match") for c in miss[1]):
+            return None
+        if hit[5] != "return" or hit[0][0] != "ctor" or hit[0][1] != "std::prelude::v1::Some" or len(hit[0][2]) != 1:
+            return None
+        pc = hit[1]
+        if not pc or pc[0][0] != "loop":
+            return None
+        lid, kind = pc[0][1], pc[0][2]
+        info = self.summ.loops.get(lid, {})
+        idx_val = hit[0][2][0]
+        conds = [c for c in pc[1:]]
+        if any(c[0] not in ("if", "match") for c in conds):
+            return None
+        seq = None
+        if kind == "while":
+            vars_ = info.get("vars", {})
+            if len(vars_) != 1:
+                return None
+            (name, (init, upd)), = vars_.items()
+            lv = ("loopvar", lid, name)
+            if init != ("lit", Int(0)) and init != ("lit", 0):
+                return None
+            if upd not in (("bin", "+", lv, ("lit", 1)), ("bin", "+", ("lit", 1), lv)):
+                return None
+            if idx_val != ("mu", lid, name, init, upd) and idx_val != lv:
+                return None
+            if not conds or conds[0][0] != "if" or conds[0][2] is not True:
+                return None
+            c0 = conds[0][1]
+            if c0[0] == "bin" and c0[1] in ("<", "!=") and c0[2] == lv and c0[3][0] == "call" and c0[3][1] == "#len" and len(c0[3][2]) == 1:
+                seq = c0[3][2][0]
+            else:
+                return None
+            conds = conds[1:]
+            ivar = lv
+        else:
+            return None
+        if not conds or contains(seq, lambda x: x[0] == "loopvar"):
+            return None
+        at = ("index", seq, ivar)
+        elem = ("elem", seq)
+        body = None
+        for c in conds:
+            t = c[1] if c[0] == "if" else ("matches", c[1], c[2])
+            pol = c[2] if c[0] == "if" else c[3]
+            t = replace(t, at, elem)
+            if contains(t, lambda x: x == ivar):
+                return None
+            t = t if pol else ("not", t)
+            body = t if body is None else ("bin", "&&", body, t)
+        import norm
+        return norm.Normalizer()(("hof", "position", ("call", "core::slice::<impl [T]>::iter", (seq,)), body, ()))
 
     def _normalize(self):
         """Idiom normal forms (norm.py) for everything a rule can look at."""
@@ -672,6 +1027,10 @@ class Evaluator:
         for name, exits in self.mut_exits.items():
             for i in range(len(exits)):
                 t, pc, a, b, n_, k = exits[i]
+                if pc and pc[-1][0] == "if" and len(pc[-1]) > 4 and pc[-1][4] == "try-exit" and contains(pc[-1][1], lambda s_: s_[0] == "loopvar"):
+                    # the tested value of a `?` inside the loop: closed like the value of the exit in `returns` (ret_full agrees)
+                    pc = pc[:-1] + (("if", close(pc[-1][1])) + tuple(pc[-1][2:]),)
+                    exits[i] = (t, pc, a, b, n_, k)
                 if contains(t, lambda s_: s_[0] == "loopvar"):
                     exits[i] = (close(t), pc, a, b, n_, k)
         rs = self.summ.returns
@@ -864,8 +1223,12 @@ class Evaluator:
             for pat, scrut in bl:
                 self._bind(pat, scrut, self.st.env)
             self._pc_push(("if", l, True, n["id"]))       # short-circuit: the right operand is only evaluated when the left holds
+            before = self.st.copy() if self.st is not None else None
             r, br = self.cond(n["r"])
             self._pc_pop()
+            if before is not None and self.st is not None and any(self.st.env.get(k_) is not v_ and self.st.env.get(k_) != v_ for k_, v_ in before.env.items()):
+                # effects of the right operand (a call that takes `&mut` state) only happen when the left operand holds
+                self.st = merge_states(self.st, before, l)
             return ("bin", "&&", l, r), bl + br
         return self.expr(n), []
 
@@ -932,6 +1295,8 @@ class Evaluator:
         out_state = None
         prior = []
         prior_guarded = []
+        diverged = []
+        diverged_guarded = []
         for idx, arm in enumerate(n["arms"]):
             d = pat_desc(arm["pat"])
             if concrete is not None:
@@ -969,6 +1334,10 @@ class Evaluator:
             if self.st is not None:
                 results.append(((d, g), v))
                 out_state = self.st if out_state is None else merge_states(out_state, self.st, ("arm", n["id"], idx))
+            elif g is None:
+                diverged.append(d)
+            else:
+                diverged_guarded.append((d, g))
             if g is None:
                 prior.append(d)
             else:
@@ -976,6 +1345,16 @@ class Evaluator:
         self.st = out_state
         if out_state is None:
             return NEVER
+        # arms that left the function (return / break / panic): the rest of the enclosing block knows their pattern did not match
+        for d in diverged:
+            if d[0] in ("var", "lit", "or") and concrete is None:
+                self.pc.append(("match", scrut, d, False, n["id"]))
+                self._learn(("matches", scrut, d), False)
+        for d, g in diverged_guarded:
+            if d[0] in ("var", "lit", "or") and concrete is None:
+                c_ = ("bin", "&&", ("matches", scrut, d), g)
+                self.pc.append(("if", c_, False, n["id"]))
+                self._learn(c_, False)
         vals = [v for _, v in results]
         if all(v == vals[0] for v in vals):
             return vals[0]
@@ -1039,8 +1418,15 @@ class Evaluator:
                     declared |= {lid for lid, _ in pat_bindings(x["pat"])}
         carried = self._assigned_locals(body_nodes, declared)
         init = {lid: self.st.env[lid] for lid in carried}
+        sroa = {}
         for lid, name in carried.items():
-            self.st.env[lid] = ("loopvar", lid_loop, name)
+            v0 = init[lid]
+            if v0[0] == "struct" and v0[2] and all(isinstance(f_, str) for f_, _ in v0[2]):
+                # a struct literal that is updated in the loop: one loop variable per field
+                sroa[lid] = [f_ for f_, _ in v0[2]]
+                self.st.env[lid] = ("struct", v0[1], tuple((f_, ("loopvar", lid_loop, f"{name}.{f_}")) for f_, _ in v0[2]))
+            else:
+                self.st.env[lid] = ("loopvar", lid_loop, name)
         head = self.st.copy()
         frame = [lid_loop, [], [], n.get("label"), n.get("loop_id", n["id"])]
         self.loop_stack.append(frame)
@@ -1073,12 +1459,36 @@ class Evaluator:
                 end_state = s if end_state is None else merge_states(s, end_state, c_s if c_s is not None else ("loopend", lid_loop))
         updates = {}
         for lid, name in carried.items():
+            if lid in sroa:
+                endv = end_state.env.get(lid) if end_state is not None else None
+                for f_ in sroa[lid]:
+                    lv_ = ("loopvar", lid_loop, f"{name}.{f_}")
+                    updates[f"{name}.{f_}"] = (mk_field(init[lid], f_), mk_field(endv, f_) if endv is not None else lv_)
+                continue
             updates[name] = (init[lid], end_state.env.get(lid, ("loopvar", lid_loop, name)) if end_state is not None else ("loopvar", lid_loop, name))
         info = self.summ.loops.setdefault(lid_loop, {})
         info.update({"vars": updates, "node": n, "kind": kind, "carried": dict(carried)})
         # exit state: head exits + breaks
         exit_state = None
-        for s in exits + frame[1]:
+        searched = None
+        if kind == "for" and len(frame[1]) == 1 and frame[1][0] is not None and len(exits) == 1 and exits[0] is not None and not frame[2]:
+            # `for x in it { if C(x) { ..; break } }`: the loop is left early iff some element satisfies C (C independent of the iteration state);
+            # what the `break` path leaves behind is the value if so, the exhausted loop's value otherwise
+            bc = self._break_conds.get(id(frame[1][0]))
+            if bc is not None and not contains(bc, lambda s_: s_[0] == "loopvar" and s_[1] == lid_loop):
+                searched = ("hof", "any", it, bc, ())
+                first = ("proj", ("hof", "find", it, bc, ()), "std::prelude::v1::Some", 0)
+                bstate = frame[1][0]
+                env = {}
+                for k_ in set(exits[0].env) | set(bstate.env):
+                    th, tb = exits[0].env.get(k_), bstate.env.get(k_)
+                    if th is None or tb is None:
+                        continue
+                    if tb is not th and tb != th and contains(tb, lambda s_: s_ == ("elem", it)):
+                        tb = replace(tb, ("elem", it), first)
+                    env[k_] = mk_ite(searched, tb, th)
+                exit_state = State(env, exits[0].may | bstate.may, exits[0].must & bstate.must)
+        for s in (exits + frame[1]) if searched is None else []:
             if s is not None:
                 exit_state = s if exit_state is None else merge_states(exit_state, s, ("loopexit", lid_loop))
         if end_state is not None and exit_state is not None:
@@ -1086,15 +1496,28 @@ class Evaluator:
         # close the loop variables
         memo = {}
 
+        idmemo = {}
+
         def close(t):
             if not isinstance(t, tuple) or not t:
                 return t
-            if t in memo:
-                return memo[t]
+            if t[0] == "loopvar":
+                if t in memo:
+                    return memo[t]
+            else:
+                hit = idmemo.get(id(t))
+                if hit is not None and hit[0] is t:
+                    return hit[1]
             if t[0] == "loopvar" and t[1] == lid_loop:
                 i, u = updates.get(t[2], (("unk", "loop"), t))
                 if u == t:
                     r = i            # never changed on a path back to the loop head
+                elif kind == "for" and not frame[1] and i[0] == "lit" and isinstance(i[1], bool) and u[0] == "ite" \
+                        and ((u[2][0] == "lit" and isinstance(u[2][1], bool) and u[3] == t) or (u[3][0] == "lit" and isinstance(u[3][1], bool) and u[2] == t)) \
+                        and not contains(u[1], lambda s_: s_[0] == "loopvar" and s_[1] == lid_loop):
+                    # `for x in it { if C(x) { flag = b } }`: the flag ends as b iff some element satisfies C
+                    b_, c_ = (u[2], u[1]) if u[3] == t else (u[3], ("not", u[1]))
+                    r = i if b_ == i else ("ite", ("hof", "any", it, c_, ()), b_, i)
                 elif kind == "for" and not frame[1] and is_fresh_collection(i) and u[0] == "mut" and u[1] == t and u[2][0] == "call" \
                         and isinstance(u[2][1], str) and u[2][1].rsplit("::", 1)[-1] in ("push", "push_back") and len(u[2][2]) == 1 \
                         and not contains(u[2][2][0], lambda s_: s_ == t):
@@ -1119,7 +1542,12 @@ class Evaluator:
                     r = ("mu", lid_loop, t[2], i, u)
             else:
                 r = tuple(close(x) if isinstance(x, tuple) else x for x in t)
-            memo[t] = r
+                if all(a is b for a, b in zip(r, t)):
+                    r = t
+            if t[0] == "loopvar":
+                memo[t] = r
+            else:
+                idmemo[id(t)] = (t, r)
             return r
 
         self._close_returns(n_returns_before, close)
@@ -1166,24 +1594,35 @@ class Evaluator:
             self.st.env = saved_env
         return v
 
-    def _import_sites(self, cs, mapping):
+    def _import_sites(self, cs, mapping, beta=False):
         """Whole-pipeline view: the sites of an inlined callee, re-expressed in the caller's terms."""
         if len(self.summ.deep_sites) > 20000:
             return
         memo = {}
         pc0 = tuple(self.pc)
+
+        def sb(t):
+            t = subst(t, mapping, memo)
+            if beta and self.st is not None and contains(t, lambda s_: s_[0] == "callv" and s_[1][0] == "closure"):
+                saved = self.st
+                t2 = self.beta(t)
+                if self.st is None:
+                    self.st = saved
+                    return t
+                return t2
+            return t
         for s in cs.sites + cs.deep_sites:
             pc = []
             for c in s.pc:
                 if c[0] == "if":
-                    pc.append(("if", subst(c[1], mapping, memo)) + tuple(c[2:]))
+                    pc.append(("if", sb(c[1])) + tuple(c[2:]))
                 elif c[0] == "match":
-                    pc.append(("match", subst(c[1], mapping, memo)) + tuple(c[2:]))
+                    pc.append(("match", sb(c[1])) + tuple(c[2:]))
                 else:
                     pc.append(c)
             self.summ.deep_sites.append(Site(
                 node=s.node, fn=s.fn, kind=s.kind, callee=s.callee, inst=s.inst, name=s.name,
-                args=[subst(a, mapping, memo) for a in (s.args or [])], argnodes=s.argnodes, pc=pc0 + tuple(pc),
+                args=[(sb(a) if s.kind != "callv" else subst(a, mapping, memo)) for a in (s.args or [])], argnodes=s.argnodes, pc=pc0 + tuple(pc),
                 may=self.st.may | (s.may or frozenset()), must=self.st.must | (s.must or frozenset()),
                 loops=tuple(l[0] for l in self.loop_stack) + tuple(s.loops or ()), term=subst(s.term, mapping, memo) if isinstance(s.term, tuple) else s.term,
                 ordinal=s.ordinal, ty=s.ty, closure=s.closure))
@@ -1194,11 +1633,39 @@ class Evaluator:
             return t
         if t[0] == "callv" and t[1][0] == "closure" and t[1][1] in self.summ.closures:
             args = [self.beta(a, depth + 1) for a in t[2]]
+            # one call of the closure in the callee is one application here, however often its value occurs in the callee's terms
+            memo = self._beta_memo
+            key = (t[1][1], tuple(args))
+            try:
+                if key in memo:
+                    return memo[key]
+            except TypeError:
+                key = None
+            # the closure runs where the callee calls it: under the callee's conditions at that call
+            extra = getattr(self, "_beta_pcs", {}).get(t[1][1], ())
+            for c_ in extra:
+                self._pc_push(c_)
             r = self.apply_closure(t[1][1], args)
-            return r if self.st is not None else NEVER
+            for c_ in extra:
+                self._pc_pop()
+            r = r if self.st is not None else NEVER
+            if key is not None:
+                memo[key] = r
+            return r
+        if t[0] == "call" and isinstance(t[1], str) and t[1].rsplit("::", 1)[-1] in HOF_METHODS and len(t[2]) >= 2 and t[2][-1][0] == "closure" \
+                and t[2][-1][1] in self.summ.closures:
+            # the helper handed our closure on to an iterator / Option combinator: `xs.iter().position(pred)` with pred = |t| ..
+            recv = self.beta(t[2][0], depth + 1)
+            is_opt = any(k_ in t[1] for k_ in ("option::Option", "result::Result"))
+            node_ = self.summ.closures[t[2][-1][1]][0]
+            carg = ("payload", recv) if is_opt else ("elem", recv)
+            body = self.apply_closure(t[2][-1][1], [carg] * len(node_["params"]))
+            if self.st is None:
+                return NEVER
+            return ("hof", t[1].rsplit("::", 1)[-1], recv, body, tuple(self.beta(a, depth + 1) for a in t[2][1:-1]))
         if not any(isinstance(x, tuple) for x in t):
             return t
-        if not contains(t, lambda s_: s_[0] == "callv"):
+        if not contains(t, lambda s_: s_[0] == "callv" or (s_[0] == "closure")):
             return t
         return tuple(self.beta(x, depth + 1) if isinstance(x, tuple) else x for x in t)
 
@@ -1234,7 +1701,22 @@ class Evaluator:
         # `&mut x` arguments and `&mut self` receivers may be mutated by the callee
         term = None
         inlined_cs, inlined_mapping = None, None
+        if callee == "std::convert::Into::into" and len(args) == 1 and argnodes and argnodes[0] is not None:
+            # x.into() with a local `impl From<T> for U` is that impl's `from(x)` (the blanket impl of Into)
+            u_, t_ = str(n.get("ty", "")), str(argnodes[0].get("ty", "")).lstrip("&").strip()
+            cand = f"<{u_} as std::convert::From<{t_}>>::from"
+            if self.local_callee(cand) is not None:
+                callee = cand
         target = self.local_callee(callee) if callee else None
+        if isinstance(callee, str) and callee.endswith("::default") and not args:
+            adt = self.prog.adt(str(n.get("ty", ""))) if hasattr(self.prog, "adt") else None
+            if adt is not None and adt.get("kind") == "struct" and adt.get("variants"):
+                d_ = target or self.local_callee(f"<{adt['path']} as std::default::Default>::default")
+                if d_ is not None and d_.derived:
+                    # #[derive(Default)]: every field is the default value of its type
+                    term = ("struct", adt["path"], tuple((fl["name"], ("call", "std::default::Default::default", ())) for fl in adt["variants"][0]["fields"]))
+                    site.term = term
+                    return term
         if target is not None and not target.derived:
             opaque = not self.eng.inline
             h = self.eng.hooks
@@ -1242,11 +1724,31 @@ class Evaluator:
                 opaque = True
             if not opaque:
                 cs = None
+                if not self.pe:
+                    # a function item handed to a local higher-order function: the callee is specialised for it, so that the indirect
+                    # call is the called function's body (as if the caller had written a closure / the call itself)
+                    fnargs = {}
+                    for i_, p_ in enumerate(target.params):
+                        if p_.get("k") == "bind" and i_ < len(args) and args[i_][0] == "def" and isinstance(args[i_][1], str) \
+                                and self.local_callee(args[i_][1]) is not None:
+                            fnargs[p_["name"]] = args[i_]
+                    if fnargs:
+                        cs0 = self.eng.summary(target)
+                        called = {s_.term[1] for s_ in (cs0.sites if cs0 is not None else []) if s_.kind == "callv" and isinstance(s_.term, tuple)
+                                  and s_.term[0] == "param"}
+                        # .. or hands it to an iterator / Option combinator (`xs.iter().position(predicate)`)
+                        called |= {s_.args[-1][1] for s_ in (cs0.sites if cs0 is not None else []) if s_.kind == "mcall" and s_.name in HOF_METHODS
+                                   and s_.args and isinstance(s_.args[-1], tuple) and s_.args[-1][0] == "param"}
+                        fnargs = {k_: v_ for k_, v_ in fnargs.items() if k_ in called}       # only where the callee itself calls it
+                        if fnargs and self.eng.api_forms().is_recursive(target):
+                            fnargs = {}             # a recursive helper keeps its parameters (its self-calls are folded by the rules)
+                    if fnargs:
+                        cs = self.eng.specialise(target, fnargs)
                 if self.pe:
                     fargs = [self.fold(a) for a in args]
                     conc = {}
                     for i_, p_ in enumerate(target.params):
-                        if p_.get("k") == "bind" and i_ < len(fargs) and is_concrete_term(fargs[i_]):
+                        if p_.get("k") == "bind" and i_ < len(fargs) and (is_concrete_term(fargs[i_]) or fargs[i_][0] == "def"):
                             conc[p_["name"]] = fargs[i_]
                     if conc:
                         cs = self.eng.specialise(target, conc)
@@ -1261,11 +1763,40 @@ class Evaluator:
                         if i < len(args):
                             mapping[nm] = args[i]
                     term = subst(getattr(cs, "ret_full", None) or cs.ret, mapping)
-                    self._import_sites(cs, mapping)
+                    self._beta_memo = {}
+                    passes_closure = any(isinstance(a_, tuple) and a_ and a_[0] == "closure" for a_ in args)
+                    self._beta_pcs = {}
+                    if passes_closure:
+                        for pn_, a_ in mapping.items():
+                            if isinstance(a_, tuple) and a_ and a_[0] == "closure":
+                                cv = [s_ for s_ in cs.sites if s_.kind == "callv" and s_.term == ("param", pn_)]
+                                if len(cv) == 1:
+                                    pcs_ = []
+                                    for c_ in cv[0].pc:
+                                        if c_[0] in ("if", "match"):
+                                            pcs_.append((c_[0], subst(c_[1], mapping)) + tuple(c_[2:]))
+                                    self._beta_pcs[a_[1]] = tuple(pcs_)
+                    if not passes_closure:
+                        self._import_sites(cs, mapping)
                     term = self.beta(term)
+                    if passes_closure and self.st is not None:
+                        # the callee's conditions and arguments mention calls of our closure: they read as the closure's body
+                        self._import_sites(cs, mapping, beta=True)
                     inlined_cs, inlined_mapping = cs, mapping
             else:
                 term = ("call", target.path, tuple(args))
+                if self.eng.inline and target.vis != "Public" and (h is None or (getattr(h, "api_forms", True) and target.path not in getattr(h, "opaque_names", ()))):
+                    fm = self.eng.api_forms().form(target, self.fn)
+                    if fm is not None:
+                        mapping = {}
+                        for i, p in enumerate(target.params):
+                            if p.get("k") == "bind" and i < len(args):
+                                mapping[p["name"]] = args[i]
+                        term = subst(fm[0], mapping)
+                        for f_, fargs in fm[1]:
+                            fa = [subst(a, mapping) for a in fargs]
+                            self._site(node=n, kind="call", callee=f_.path, inst=None, name=None, args=fa, argnodes=[None] * len(fa),
+                                       term=("call", f_.path, tuple(fa)), ty=f_.ret)
         if term is None:
             term = ("call", callee, tuple(args))
             if isinstance(callee, str) and callee.rsplit("::", 1)[-1] in ("box_assume_init_into_vec_unsafe", "into_vec"):
@@ -1301,7 +1832,7 @@ class Evaluator:
                         else:
                             self.st.env[r[0]] = ("mut", old, ("assign", ".".join(r[2]), newv), r[2])
                         continue
-                    self.st.env[r[0]] = ("mut", old, ("call", callee, tuple(a for j, a in enumerate(args) if j != i)), r[2])
+                    self.st.env[r[0]] = mk_mut(old, ("call", callee, tuple(a for j, a in enumerate(args) if j != i)), r[2])
         if n.get("ty") == "!":
             self.st = None
             return NEVER
@@ -1342,6 +1873,8 @@ class Evaluator:
         if cal[0] == "closure" and cal[1] in self.summ.closures:
             self._site(node=n, kind="callv", callee=None, name=n.get("name"), args=list(args), argnodes=argnodes, term=cal, ty=n.get("ty"))
             return self.apply_closure(cal[1], args)
+        if cal[0] == "def" and isinstance(cal[1], str) and self.local_callee(cal[1]) is not None:
+            return self.do_call(n, cal[1], None, args, argnodes, "call")          # a known function item called through a variable
         self._site(node=n, kind="callv", callee=None, name=n.get("name"), args=[cal] + list(args), argnodes=[None] + argnodes, term=cal, ty=n.get("ty"))
         return ("callv", cal, tuple(args))
 
@@ -1409,11 +1942,19 @@ class Evaluator:
                         old_ = self.st.env[r_[0]]
                         self.st.env[r_[0]] = ("mut", old_, ("call", d or name, (body,)), r_[2])
                 return t
+            fdef = None
             if fa_s.get("k") == "path" and fa_s.get("res") == "def" and fa_s.get("dk") in ("Fn", "AssocFn"):
+                fdef = fa_s["def"]
+            elif fa_s.get("k") == "path" and fa_s.get("res") == "local":
+                # a function item held in a variable / parameter (known when the enclosing function was specialised for it)
+                v_ = self.lookup(fa_s["lid"], fa_s["name"])
+                if v_[0] == "def" and isinstance(v_[1], str) and self.local_callee(v_[1]) is not None:
+                    fdef = v_[1]
+            if fdef is not None:
                 site = self._site(node=n, kind="mcall", callee=d, inst=n.get("inst"), name=name,
-                                  args=[recv] + other + [("def", fa_s["def"])], argnodes=argnodes, ty=n.get("ty"))
+                                  args=[recv] + other + [("def", fdef)], argnodes=argnodes, ty=n.get("ty"))
                 arg = ("payload", recv) if rty.lstrip("&").replace("mut ", "").startswith(("std::option::Option", "std::result::Result")) else ("elem", recv)
-                body = self.do_call(fa_s, fa_s["def"], fa_s.get("inst"), [arg], [None], "call")
+                body = self.do_call(fa_s, fdef, fa_s.get("inst") if fa_s.get("res") == "def" else None, [arg], [None], "call")
                 t = ("hof", name, recv, body, tuple(other))
                 site.term = t
                 return t
@@ -1607,7 +2148,12 @@ class Evaluator:
                 self.st.env[lid] = v
             else:
                 old = self.st.env.get(lid, ("unk", name))
-                self.st.env[lid] = ("mut", old, ("assign", ".".join(path), v), path)
+                if old[0] == "struct" and len(path) == 1 and n["l"].get("k") == "field" and (n["l"].get("e") or {}).get("k") == "path" \
+                        and any(f == path[0] for f, _ in old[2]):
+                    # `s.f = v` on a struct literal
+                    self.st.env[lid] = ("struct", old[1], tuple((f, v if f == path[0] else t) for f, t in old[2]))
+                else:
+                    self.st.env[lid] = ("mut", old, ("assign", ".".join(path), v), path)
         else:
             self.expr(n["l"])
         return UNIT
@@ -1661,6 +2207,15 @@ class Evaluator:
         self._site(node=n, kind="break", name="break", args=[v], argnodes=[n.get("e")], term=("loop", frame[0] if frame else None))
         if frame is not None:
             frame[1].append(self.st)
+            # the condition under which this `break` is taken, relative to the start of the loop body
+            since = []
+            seen = False
+            for c in self.pc:
+                if c[0] == "loop" and c[1] == frame[0]:
+                    seen, since = True, []
+                elif seen:
+                    since.append(c)
+            self._break_conds[id(self.st)] = pc_term(since) if all(c[0] in ("if", "match") for c in since) else None
         self.st = None
         return NEVER
 
@@ -1727,7 +2282,7 @@ class Evaluator:
             import norm as _norm
             test = ("matches", v, _norm.OK_DESC if is_res else _norm.SOME_DESC)
             for lid, name in self.mut_params.items():
-                self.mut_exits.setdefault(name, []).append((self.st.env.get(lid, ("param", name)), tuple(self.pc) + (("if", test, False, n["id"]),), None, None, n, "return"))
+                self.mut_exits.setdefault(name, []).append((self.st.env.get(lid, ("param", name)), tuple(self.pc) + (("if", test, False, n["id"], "try-exit"),), None, None, n, "return"))
         # the rest of the enclosing block is only reached when the value was Ok / Some
         import norm
         self.pc.append(("if", ("matches", v, norm.OK_DESC if is_res else norm.SOME_DESC), True, n["id"], "try"))
